@@ -397,6 +397,10 @@ impl NodeData {
     }
     pub fn len(&self, salt: u32) -> u32 {
         if salt == 27 {
+            // "crowd": more than 30 items, and for one node in eight more than 128
+            if h(self.id, salt + 900) % 8 == 0 {
+                return 130 + h(self.id, salt + 700) % 40;
+            }
             return 31 + h(self.id, salt + 700) % 4;
         }
         h(self.id, salt + 700) % 4
